@@ -592,9 +592,10 @@ func (s *session) itemsOf(kind string) ([]item, bool) {
 }
 
 // expected definition set of (slot, type) from one complete invocation: the BN's assignments for
-// that slot restricted to active cluster validators (first entry per validator).
-func (e *episode) expected(ses *session, slot uint64, ty core.DutyType) map[uint64]item {
-	out := map[uint64]item{}
+// that slot restricted to active cluster validators, per pubkey. Should the BN list several
+// different assignments for one validator in one slot, any of them is accepted.
+func (e *episode) expected(ses *session, slot uint64, ty core.DutyType) map[uint64][]item {
+	out := map[uint64][]item{}
 	kind := kindOf(ty)
 	its, _ := ses.itemsOf(kind)
 	for _, it := range its {
@@ -605,16 +606,9 @@ func (e *episode) expected(ses *session, slot uint64, ty core.DutyType) map[uint
 		if !ok {
 			continue
 		}
-		if _, dup := out[v.pk]; !dup {
-			out[v.pk] = it
-		}
+		out[v.pk] = append(out[v.pk], it)
 	}
 	return out
-}
-
-func sameSession(a, b *session) bool {
-	return reflect.DeepEqual(a.att, b.att) && reflect.DeepEqual(a.pro, b.pro) && reflect.DeepEqual(a.syn, b.syn) &&
-		a.attOK == b.attOK && a.proOK == b.proOK && a.synOK == b.synOK && reflect.DeepEqual(a.vals, b.vals)
 }
 
 // monitorTick evaluates C15 on what the real scheduler did in this tick.
@@ -768,8 +762,13 @@ func (e *episode) monitorTick(run *hx.Run, slot core.Slot, trigs []trig, newSess
 			}
 			same := len(got.defs) == len(exp)
 			for pk, d := range got.defs {
-				it, ok := exp[corePkID(pk)]
-				if !ok || !e.sameAsBN(d, it) {
+				ok := false
+				for _, it := range exp[corePkID(pk)] {
+					if e.sameAsBN(d, it) {
+						ok = true
+					}
+				}
+				if !ok {
 					same = false
 				}
 			}
